@@ -287,6 +287,14 @@ def _mal_jobs(tier, seed):
 def pipe_malformed(sp, game, args, rule, prune):
     t = tad_pipe()
     g = build(game, args)
+    # the well-formed game is solved first in the same process: whatever that run leaves behind must not let the
+    # malformed near-copy through
+    t.logging.reset(400)
+    try:
+        t.StochasticGame(prune_states=prune, **g.description(sp, nsym=0)).solve()
+    except ValueError as e:
+        if "no solution" not in str(e):
+            raise
     desc = g.description(sp, nsym=0)
     n = g.n
     tl = desc["transition_list"]
@@ -371,3 +379,24 @@ def pipe_malformed(sp, game, args, rule, prune):
         sp.prove(True, "rejected")
         return
     sp.prove(False, "a game breaking rule %r was solved instead of being rejected with ValueError" % rule)
+
+
+@harness("pipe.corridor", props=["C13", "C06"], jobs=lambda tier, seed: [dict(n=n, prune=p, _timeout_s=2400) for n in ((2100,) if tier == "thorough" else (400,))
+                                                                       for p in (True, False)], sentinel=True,
+         bounds="CONCRETE: a corridor of 400 (thorough 2100) chance states numbered in walking order and in reverse order",
+         desc="CONCRETE (not a solver verdict): a long corridor is solved, and gives the same probabilities and rewards up to "
+              "renumbering, whether its states are numbered forwards (one sweep per tile) or backwards (a handful of sweeps)")
+def pipe_corridor(sp, n, prune):
+    res = {}
+    for rev in (False, True):
+        g = G.corridor(n, rev, reward=0)
+        desc = dict(rewards=list(g.rewards), players=list(g.players), transition_list=[list(x) for x in g.tl], final_states=list(g.finals),
+                    _budget=20 * n + 1000)
+        res[rev] = solve(sp, desc, prune)
+    sp.prove(res[False][0] == res[True][0] == "ok", "corridor: %s / %s" % (res[False][0], res[True][0]))
+    pf, pr_ = res[False][1][3], res[True][1][3]
+    fwd = [0] + list(range(1, n + 1))
+    rev = [0] + list(range(n, 0, -1))
+    for k in range(n + 1):
+        sp.prove(abs(pf[fwd[k]] - pr_[rev[k]]) <= 1e-5, "tile %d: probability %r forwards, %r backwards" % (k, pf[fwd[k]], pr_[rev[k]]))
+    sp.prove(pf[0] > 0.5, "initial probability %r" % pf[0])
